@@ -3,7 +3,7 @@
 use std::borrow::Cow;
 use std::io::{self, Write};
 
-use crate::errors::Result;
+use crate::errors::{Error, Result};
 use crate::histogram::BUCKET_LABEL;
 use crate::proto::{self, MetricFamily, MetricType};
 #[cfg(feature = "protobuf")]
@@ -150,7 +150,10 @@ impl TextEncoder {
                         )?;
                     }
                     MetricType::UNTYPED => {
-                        unimplemented!();
+                        return Err(Error::Msg(format!(
+                            "MetricFamily {:?} has an unsupported type: untyped",
+                            name
+                        )));
                     }
                 }
             }
